@@ -178,7 +178,7 @@ pub fn check_sim(prop: &str, tier: &str) -> i32 {
         crate::journal::fill_report(&mut report, prop, found, &stats);
     }
     // glue conformance (DESIGN §4.8): real stack over loopback TCP vs. the simulation
-    if !quick && prop == "C09" {
+    if prop == "C09" {
         let rc = std::panic::catch_unwind(crate::glue::run).unwrap_or(2);
         report.extra.insert(
             "glue_conformance".into(),
